@@ -250,3 +250,39 @@ messages!(
 pub fn msg(code: &str) -> Option<&'static MsgOps> {
     MESSAGES.iter().find(|m| m.code == code)
 }
+
+/// The thirty `as_mtNNN` / `into_mtNNN` accessors of the auto-detected message: (code, as is Some, into is Some)
+pub fn accessors(p: &swift_mt_message::ParsedSwiftMessage) -> Vec<(&'static str, bool, bool)> {
+    vec![
+        ("101", p.as_mt101().is_some(), p.clone().into_mt101().is_some()),
+        ("103", p.as_mt103().is_some(), p.clone().into_mt103().is_some()),
+        ("104", p.as_mt104().is_some(), p.clone().into_mt104().is_some()),
+        ("107", p.as_mt107().is_some(), p.clone().into_mt107().is_some()),
+        ("110", p.as_mt110().is_some(), p.clone().into_mt110().is_some()),
+        ("111", p.as_mt111().is_some(), p.clone().into_mt111().is_some()),
+        ("112", p.as_mt112().is_some(), p.clone().into_mt112().is_some()),
+        ("190", p.as_mt190().is_some(), p.clone().into_mt190().is_some()),
+        ("191", p.as_mt191().is_some(), p.clone().into_mt191().is_some()),
+        ("192", p.as_mt192().is_some(), p.clone().into_mt192().is_some()),
+        ("196", p.as_mt196().is_some(), p.clone().into_mt196().is_some()),
+        ("199", p.as_mt199().is_some(), p.clone().into_mt199().is_some()),
+        ("200", p.as_mt200().is_some(), p.clone().into_mt200().is_some()),
+        ("202", p.as_mt202().is_some(), p.clone().into_mt202().is_some()),
+        ("204", p.as_mt204().is_some(), p.clone().into_mt204().is_some()),
+        ("205", p.as_mt205().is_some(), p.clone().into_mt205().is_some()),
+        ("210", p.as_mt210().is_some(), p.clone().into_mt210().is_some()),
+        ("290", p.as_mt290().is_some(), p.clone().into_mt290().is_some()),
+        ("291", p.as_mt291().is_some(), p.clone().into_mt291().is_some()),
+        ("292", p.as_mt292().is_some(), p.clone().into_mt292().is_some()),
+        ("296", p.as_mt296().is_some(), p.clone().into_mt296().is_some()),
+        ("299", p.as_mt299().is_some(), p.clone().into_mt299().is_some()),
+        ("900", p.as_mt900().is_some(), p.clone().into_mt900().is_some()),
+        ("910", p.as_mt910().is_some(), p.clone().into_mt910().is_some()),
+        ("920", p.as_mt920().is_some(), p.clone().into_mt920().is_some()),
+        ("935", p.as_mt935().is_some(), p.clone().into_mt935().is_some()),
+        ("940", p.as_mt940().is_some(), p.clone().into_mt940().is_some()),
+        ("941", p.as_mt941().is_some(), p.clone().into_mt941().is_some()),
+        ("942", p.as_mt942().is_some(), p.clone().into_mt942().is_some()),
+        ("950", p.as_mt950().is_some(), p.clone().into_mt950().is_some()),
+    ]
+}
